@@ -97,9 +97,8 @@ def litMeta : Bytes := [109, 101, 116, 97]                                -- "me
 
 /-- `?>` occurs in `l` -/
 def containsQmGt : Bytes → Bool
-  | 63 :: 62 :: _ => true
-  | _ :: t => containsQmGt t
   | [] => false
+  | x :: t => (x == 63 && t.head? == some 62) || containsQmGt t
 
 /-- lazy `(.*?)['"].*\?>`: the shortest prefix that is followed by a quote after which `?>` still
     occurs on the line. `acc` = the group so far, reversed. -/
